@@ -249,7 +249,16 @@ let cyclic = Cc::new_cyclic(|weak| {
         }
 
         #[cfg(kani)] let __um = crate::verif::unwind_mark(); // verification hook (H4): emulated unwinding, /verif/DESIGN.md 2.5
-        let cc = Cc::new(NewCyclicWrapper::new());
+        // Don't use Cc::new here: it may start a collection, and if that collection panics the (still uninitialized)
+        // NewCyclicWrapper passed to it would be dropped during unwinding as if it was initialized.
+        // So start the collection (if needed) before creating the wrapper.
+        let cc: Cc<NewCyclicWrapper<T>> = crate::state::state(|state| {
+            #[cfg(feature = "auto-collect")]
+            crate::trigger_collection(state);
+            #[cfg(kani)] if crate::verif::unwound(__um) { return Cc::__new_internal(NonNull::dangling()); } // verification hook (H4): emulated unwinding, /verif/DESIGN.md 2.5
+
+            Cc::__new_internal(CcBox::new(NewCyclicWrapper::new(), state))
+        });
         #[cfg(kani)] if crate::verif::unwound(__um) { mem::forget(cc); return Cc::__new_internal(NonNull::dangling()); } // verification hook (H4): emulated unwinding, /verif/DESIGN.md 2.5
 
         // Immediately call inner_ptr and forget the Cc instance. Having a Cc instance is dangerous, since:
